@@ -69,6 +69,8 @@ func main() {
 		os.Exit(runMapRanges(&o))
 	case "loops":
 		os.Exit(runLoops(&o))
+	case "locals-snapshot":
+		os.Exit(runLocalsSnapshot(&o))
 	default:
 		fmt.Fprintln(os.Stderr, "unknown command", cmd)
 		os.Exit(2)
@@ -84,6 +86,7 @@ func loadAll(o *Options) (*Program, error) {
 		return nil, err
 	}
 	p.computeModSets()
+	p.localsSnap = loadLocalsSnapshot(o.verif)
 	return p, nil
 }
 
